@@ -50,13 +50,23 @@ func OracleC11(tr *Trace) Verdict {
 			continue
 		}
 		G := p.graceOf(c.Inst)
-		var last *NotifRec
+		// the latest disconnect notification before the demotion, whatever the instance was when it arrived
+		// (the statement counts from the latest notification), and a reconnect notification after it
+		var last, reconn *NotifRec
 		for _, n := range notifs[c.Obj] {
-			if n.Kind == ActDisconnect && n.Seq < c.ToSeq && n.WasLeader {
-				last = n
+			if n.Kind == ActDisconnect && n.Seq < c.ToSeq {
+				last, reconn = n, nil
+			}
+			if n.Kind == ActReconnect && last != nil && n.Seq < c.ToSeq && n.T < c.ToT {
+				reconn = n
 			}
 		}
 		who := fmt.Sprintf("%s#%d", tr.ID(c.Inst), c.Obj)
+		if last != nil && reconn != nil {
+			v.Viols = append(v.Viols, Viol{At: c.ToT, Sig: "C11 grace-demotion-after-reconnect",
+				Msg: fmt.Sprintf("%s was demoted by the grace mechanism at %v although a reconnect notification had arrived at %v, after its latest disconnect notification (%v)", who, c.ToT, reconn.T, last.T)})
+			continue
+		}
 		if last == nil {
 			v.Viols = append(v.Viols, Viol{At: c.ToT, Sig: "C11 grace-demotion-without-disconnect", Msg: fmt.Sprintf("%s was demoted by the grace mechanism at %v but no disconnect notification reached it as a leader before", who, c.ToT)})
 		} else if c.ToT < last.T+G {
